@@ -128,6 +128,63 @@ def run(ctx):
                 "lead-surrogate test (path: %s): a CR delivered alone is not held back for the LF that follows"
                 % (label, " -> ".join(reversed(cfg.witness(par, crlf[0]))) if reached else ""),
                 {"abstract_length": label}, detail={"abstract_length": label, "test_evaluated_on_every_path": True})
+    chunk_invariants(ctx)
+
+
+def chunk_invariants(ctx):
+    """C05.4: `chunkSize` is the length of `chunk` -- every path of a stream method that stores the one stores the other
+    (prepending an ungot character at a chunk start grows both); C05.5: char() refills exactly when the offset has
+    reached the size, and unget() at a chunk start prepends instead of stepping back."""
+    r = ctx.r
+    r.rule("C05.4", "chunk and chunkSize are updated together on every path of every stream method", floor=3)
+    r.rule("C05.5", "char() refills at offset >= size; unget() prepends at offset 0 and steps back otherwise", floor=3)
+    cls = ctx.repo.cls(REL, "HTMLUnicodeInputStream")
+    n = 0
+    for mn, m in cls.methods.items():
+        cfg = CFG(m.node)
+
+        def stores(attr):
+            return [x for x in cfg.stmt_nodes() if x.kind == "stmt" and isinstance(x.ast, (ast.Assign, ast.AugAssign)) and any(
+                attr_chain(t) == ["self", attr] for t in (x.ast.targets if isinstance(x.ast, ast.Assign) else [x.ast.target]))]
+        ch, sz = stores("chunk"), stores("chunkSize")
+        if not ch and not sz:
+            continue
+        n += 1
+        bad1 = [a for a in ch if cfg.must_follow([a], lambda x: x in sz) and cfg.must_precede([a], lambda x: x in sz)]
+        bad2 = [a for a in sz if cfg.must_follow([a], lambda x: x in ch) and cfg.must_precede([a], lambda x: x in ch)]
+        r.check("C05.4", not bad1 and not bad2, "chunk~chunkSize::%s" % mn, m.where,
+                "%s updates %s without the other on some path: char() then treats the chunk as shorter/longer than it is and "
+                "characters at its end are lost or read twice" % (mn, "self.chunk" if bad1 else "self.chunkSize"),
+                detail={"method": mn, "chunk_stores": len(ch), "size_stores": len(sz)})
+        # the size stored next to a chunk store agrees with it
+        for a in ch:
+            v = norm(a.ast.value)
+            if v in ("''", '""'):
+                ok = any(isinstance(b.ast, ast.Assign) and norm(b.ast.value) == "0" for b in sz)
+            elif v == "data":
+                ok = any(isinstance(b.ast, ast.Assign) and norm(b.ast.value) == "len(data)" for b in sz)
+            elif v == "char + self.chunk":
+                ok = any(isinstance(b.ast, ast.AugAssign) and isinstance(b.ast.op, ast.Add) and norm(b.ast.value) == "1" for b in sz)
+            else:
+                raise AnalysisError("%s: unrecognised chunk store `%s`" % (mn, v))
+            r.check("C05.4", ok, "size-agrees::%s::%s" % (mn, v), "%s:%d" % (REL, a.lineno),
+                    "%s stores chunk = %s but the size stored with it does not match" % (mn, v))
+    if n < 3:
+        raise AnalysisError("C05.4 matched %d stream methods" % n)
+    ch = ctx.repo.func(REL, "HTMLUnicodeInputStream.char")
+    src = " ".join(norm(ch.node).split())
+    r.check("C05.5", "if self.chunkOffset >= self.chunkSize: if not self.readChunk(): return EOF" in src, "char-refill", ch.where,
+            "char() does not refill exactly when the offset has reached the chunk size")
+    r.check("C05.5", "char = self.chunk[chunkOffset] self.chunkOffset = chunkOffset + 1" in src, "char-advance", ch.where,
+            "char() does not return the character at the offset and advance by one")
+    ug = ctx.repo.func(REL, "HTMLUnicodeInputStream.unget")
+    cfg = CFG(ug.node)
+    pre = [x for x in cfg.stmt_nodes() if x.kind == "stmt" and norm(x.ast) == "self.chunk = char + self.chunk"]
+    back = [x for x in cfg.stmt_nodes() if x.kind == "stmt" and norm(x.ast) == "self.chunkOffset -= 1"]
+    at0 = lambda x, lab: x.kind == "test" and norm(x.ast) == "self.chunkOffset == 0" and lab is True  # noqa: E731
+    not0 = lambda x, lab: x.kind == "test" and norm(x.ast) == "self.chunkOffset == 0" and lab is False  # noqa: E731
+    ok = len(pre) == 1 and len(back) == 1 and cfg.dominated_by(pre[0], at0) and cfg.dominated_by(back[0], not0)
+    r.check("C05.5", ok, "unget-arms", ug.where, "unget() does not prepend at a chunk start and step back otherwise")
 
 
 def thorough(ctx):
@@ -144,6 +201,8 @@ def mutants():
           "                self._bufferedCharacter = data[-1]", "C05.2"),
         T("no-clear", REL, "            data = self._bufferedCharacter + data\n            self._bufferedCharacter = None",
           "            data = self._bufferedCharacter + data", "C05.2"),
+        T("unget-no-size", REL, "                self.chunk = char + self.chunk\n                self.chunkSize += 1", "                self.chunk = char + self.chunk", "C05.4"),
+        T("char-off-by-one", REL, "        if self.chunkOffset >= self.chunkSize:\n            if not self.readChunk():", "        if self.chunkOffset > self.chunkSize:\n            if not self.readChunk():", "C05.5"),
         T("guard-gt-2", REL, "        if len(data) > 1:\n            lastv = ord(data[-1])", "        if len(data) > 2:\n            lastv = ord(data[-1])", "C05"),
     ]
 
